@@ -130,12 +130,6 @@ def oracle(case, ans):
 def finding_key(case, ans, profile):
     kind = fc.parse_answer(ans)[0]
     n, alg = int(case.args[0]), case.args[1]
-    red = n
-    for p in fc.SMALL_PRIMES:
-        while red % p == 0 and red > 1:
-            red //= p
-    if kind == "panic" and alg == "mpqs" and red == 58649 and profile == "chk":
-        return "mpqs-make_poly-underflow:58649"
     if kind == "panic" and alg == "qs" and n == U8_ACC_N and profile == "chk":
         return "sieve-u8-log-accumulator-overflow"
     return None
